@@ -23,7 +23,7 @@ RULE = ("cases drawn from one PRNG (VERIF_SEED): a random scope program (root bo
         "new_with_compare, new_owning, from ArcMemo) constructor, on_cleanup, provide_context(ty, v), use_context(ty), child owner {body}, Effect::new {body}, "
         "Effect::new_isomorphic {body}, Effect::watch {body as dependency fn}, RenderEffect {body}, ImmediateEffect {body}, memo {body}; nesting "
         "depth <= 3) run under a fresh root Owner, followed by a history of operations chosen against a Python simulation "
-        "of the live entities: re-run / cleanup / drop-handle of any user scope at any depth, notify effect, notify memo, "
+        "of the live entities: re-run / cleanup / cleanup-while-current / drop-handle of any user scope at any depth, notify effect, notify memo, "
         "read memo, poll one effect task, run tasks until idle in a chosen order, notify an immediate effect (re-runs "
         "synchronously), allocate n stored values / n raw arena items of a kind under a scope after disposals, dispose a "
         "value (dispose(), or into_inner() = Storage::take for a raw item) / memo / effect handle, drop a "
@@ -61,7 +61,12 @@ ASSUMPTIONS = [
     "the model's two ghost flags stay false on every generated case (checked: the model would print -99 / -98 and "
     "mismatch): err = a fuel bound was hit (proved impossible for the release cascade; for the scheduler of RunAll it "
     "is a hypothesis of the theorems), unowned = a value was allocated with no live current owner (hypothesis of no_leak)",
-    "single-threaded, atomic polls; cleanup closures do not themselves create reactive nodes or touch owners",
+    "single-threaded, atomic polls",
+    "cleanup functions that themselves register cleanups, allocate values or read a context (12 % of the programs; what they "
+    "register lands on the owner that is current while they run: the root scope, which stays current during the history like "
+    "a mounted application's, or the cleaned scope itself under op 30 `o.with(|| o.cleanup())`; with no live current owner a "
+    "registered cleanup is dropped unrun and a value belongs to nobody) are not in the Coq model: those programs are judged by "
+    "the Python oracle alone (compared, not proved); cleanup functions that create owners / effects / memos are not generated",
     "ImmediateEffect::new_scoped (the creating scope holds the effect and drops it in one of its cleanups) is not in the Coq "
     "model: programs containing it are judged by the Python oracle alone (compared, not proved)",
     "Owner::child() copies the parent's paused flag; no effect owner is made that way, so the copy is not observable and not modelled",
@@ -108,8 +113,14 @@ class Sim:
         self.log = []          # entries of the current op
         self.rel = []          # (cid, path) released in the current op, in order
         self.ever_cleaned = []
+        # where things registered while no owner is current go: nowhere
+        self.nowhere = Scope(-1, None, "user", [])
+        self.nowhere.alive = False
+        self.ambient = None
         root = self.new_scope(None, "user", body)
         self.run_body(root, body)
+        # the root scope stays the thread's current owner while the history runs (root.set())
+        self.ambient = root
 
     # --- creation
     def new_scope(self, parent, holder, body):
@@ -134,7 +145,7 @@ class Sim:
                 cid = self.ncid
                 self.ncid += 1
                 if sc.alive:
-                    sc.cleanups.append(cid)
+                    sc.cleanups.append(("c", cid, st[2] if len(st) > 2 else []))
             elif t == 3:
                 sc.ctx[st[1] if st[1] < 2 else 2] = st[2]
             elif t == 4:
@@ -213,14 +224,19 @@ class Sim:
         path = path + (sc.sid,)
         for k in kids:
             self.release(k, False, path)
-        for cid in cleanups:
-            if isinstance(cid, tuple):
-                m = cid[1]              # the cleanup registered by ImmediateEffect::new_scoped drops the effect
+        for ent in cleanups:
+            if ent[0] == "imm":
+                m = ent[1]              # the cleanup registered by ImmediateEffect::new_scoped drops the effect
                 if m["held"]:
                     m["held"] = False
                     self.release(m["scope"], True, path)
             else:
-                self.rel.append((cid, path))
+                self.rel.append((ent[1], path))
+                # what the cleanup function itself registers / allocates / looks up goes to the owner that is
+                # current while it runs (not the one being cleaned, unless that is the current one); with no live
+                # current owner a registered cleanup is dropped unrun and an allocated value belongs to nobody
+                a = self.ambient
+                self.run_body(a if (a is not None and a.alive) else self.nowhere, ent[2])
         for kind, v in vals:
             self.remove(kind, v, path)
 
@@ -295,6 +311,12 @@ class Sim:
             s = self.user(a)
             if s:
                 self.release(s, False, ())
+        elif t == 30:
+            s = self.user(a)
+            if s:
+                prev, self.ambient = self.ambient, s      # o.with(|| o.cleanup())
+                self.release(s, False, ())
+                self.ambient = prev
         elif t == 12:
             s = self.user(a)
             if s:
@@ -402,7 +424,34 @@ def kind_name(k):
     return "%s/%s" % (KINDN[k % N_KINDS], "Sync" if k % N_KINDS < 12 else "Local")
 
 
-def gen_body(rng, depth, budget, ctxy=False, fav=0):
+def gen_cleanup_body(rng, depth):
+    """what a cleanup function does besides being logged: registers further cleanups, allocates values, reads a context"""
+    out = []
+    for _ in range(rng.choice([1, 1, 2, 3])):
+        r = rng.random()
+        if r < 0.4:
+            out.append([2, 0, gen_cleanup_body(rng, depth + 1)] if (depth < 2 and rng.random() < 0.3) else [2])
+        elif r < 0.6:
+            out.append([1])
+        elif r < 0.75:
+            out.append([0])
+        elif r < 0.85:
+            out.append([12, rng.randrange(N_KINDS)])
+        else:
+            out.append([4, rng.randint(0, 2), rng.randint(0, 2)])
+    return out
+
+
+def has_cleanup_body(body):
+    for st in body:
+        if st[0] == 2 and len(st) > 2 and st[2]:
+            return True
+        if st[0] in NESTED_TAGS and has_cleanup_body(st[1]):
+            return True
+    return False
+
+
+def gen_body(rng, depth, budget, ctxy=False, fav=0, cb=False):
     n = rng.choice([1, 2, 3, 4]) if depth > 0 else rng.choice([2, 3, 4, 5])
     out = []
     for _ in range(n):
@@ -425,11 +474,11 @@ def gen_body(rng, depth, budget, ctxy=False, fav=0):
             elif r < 0.65 or depth >= 3:
                 out.append([2])
             elif r < 0.85:
-                out.append([5, gen_body(rng, depth + 1, budget, True, fav), rng.randint(0, 2)])
+                out.append([5, gen_body(rng, depth + 1, budget, True, fav, cb), rng.randint(0, 2)])
             elif r < 0.92:
-                out.append([rng.choice([6, 8, 11]), gen_body(rng, depth + 1, budget, True, fav)])
+                out.append([rng.choice([6, 8, 11]), gen_body(rng, depth + 1, budget, True, fav, cb)])
             else:
-                out.append([rng.choice(MEMO_TAGS), gen_body(rng, depth + 1, budget, True, fav)])
+                out.append([rng.choice(MEMO_TAGS), gen_body(rng, depth + 1, budget, True, fav, cb)])
             continue
         if r < 0.09:
             out.append([0])
@@ -440,7 +489,10 @@ def gen_body(rng, depth, budget, ctxy=False, fav=0):
         elif r < 0.33:
             out.append([27, rng.randrange(N_HK)])
         elif r < 0.48:
-            out.append([2] if rng.random() < 0.7 else [2, 1])
+            if cb and rng.random() < 0.45:
+                out.append([2, rng.randint(0, 1), gen_cleanup_body(rng, 0)])
+            else:
+                out.append([2] if rng.random() < 0.7 else [2, 1])
         elif r < 0.55:
             out.append([3, rng.randint(0, 2), rng.randint(1, 99)])
         elif r < 0.61:
@@ -452,22 +504,23 @@ def gen_body(rng, depth, budget, ctxy=False, fav=0):
         elif depth >= 3:
             out.append([2])
         elif r < 0.73:
-            out.append([5, gen_body(rng, depth + 1, budget, False, fav), rng.choice([0, 0, 1, 2])])
+            out.append([5, gen_body(rng, depth + 1, budget, False, fav, cb), rng.choice([0, 0, 1, 2])])
         elif r < 0.81:
-            out.append([rng.choice([6, 6, 9, 10] + list(EFFECT_TAGS)), gen_body(rng, depth + 1, budget, False, fav)])
+            out.append([rng.choice([6, 6, 9, 10] + list(EFFECT_TAGS)), gen_body(rng, depth + 1, budget, False, fav, cb)])
         elif r < 0.89:
-            out.append([rng.choice([8, 8] + list(RENDER_TAGS)), gen_body(rng, depth + 1, budget, False, fav)])
+            out.append([rng.choice([8, 8] + list(RENDER_TAGS)), gen_body(rng, depth + 1, budget, False, fav, cb)])
         elif r < 0.95:
-            out.append([rng.choice([11, 11, 21, 22, 23]), gen_body(rng, depth + 1, budget, False, fav)])
+            out.append([rng.choice([11, 11, 21, 22, 23]), gen_body(rng, depth + 1, budget, False, fav, cb)])
         else:
-            out.append([rng.choice(MEMO_TAGS), gen_body(rng, depth + 1, budget, False, fav)])
+            out.append([rng.choice(MEMO_TAGS), gen_body(rng, depth + 1, budget, False, fav, cb)])
     return out
 
 
 def gen_case(rng):
     ctxy = rng.random() < 0.2
     fav = rng.randrange(N_KINDS)
-    body = gen_body(rng, 0, [rng.choice([6, 10, 16, 24])], ctxy, fav)
+    cb = rng.random() < 0.12      # cleanup functions that register / allocate / read
+    body = gen_body(rng, 0, [rng.choice([6, 10, 16, 24])], ctxy, fav, cb)
     sim = Sim(body)
     ops = []
     nops = rng.choice([3, 6, 10, 16])
@@ -492,7 +545,7 @@ def gen_case(rng):
         elif r < 0.16:
             op = [10, pick_user()]
         elif r < 0.24:
-            op = [11, pick_user()]
+            op = [11 if rng.random() < 0.7 else 30, pick_user()]
         elif r < 0.30:
             op = [12, pick_user()]
         elif r < 0.42:
@@ -543,7 +596,10 @@ def generate(rng, tier):
     n = N_QUICK if tier == "quick" else N_THOROUGH
     for _ in range(n):
         c = gen_case(rng)
-        if has_tag(c[0], 23):
+        if has_cleanup_body(c[0]):
+            # cleanup functions that register / allocate are not in the Coq model: oracle only
+            yield dict(case=c, kind="program-cleanup-bodies", compare=False)
+        elif has_tag(c[0], 23):
             # ImmediateEffect::new_scoped is not in the Coq model (its handle is dropped by a cleanup of the scope
             # that created it): such programs are judged by the oracle alone
             yield dict(case=c, kind="program-scoped-immediate", compare=False)
@@ -635,8 +691,11 @@ def oracle(item, impl):
     m = check_point("end", sim, [fin[0], fin[1]], disposed, seen)
     if m:
         return m
-    if fin[2] != 0:
-        return "all scopes are gone but %d arena entries remain" % fin[2]
+    # values allocated by a cleanup function while no owner was current (e.g. while the root itself is being dropped)
+    # belong to nobody, by design: they are the only entries that may remain
+    nobody = sum(1 for h in sim.handles if h["alive"])
+    if fin[2] != nobody:
+        return "all scopes are gone but %d arena entries remain (%d were allocated while no owner was current)" % (fin[2], nobody)
     return None
 
 
@@ -647,7 +706,7 @@ def nontrivial(item, model):
         return any(st[0] in NESTED_TAGS for st in b)
     if not nested(body):
         return False
-    if not any(op[0] in (10, 11, 12, 23) for op in ops):
+    if not any(op[0] in (10, 11, 12, 23, 30) for op in ops):
         return False
     if isinstance(model, list) and len(model) == 3:
         return any(e[0] == 1 for o in model[1] for e in o[0])
@@ -657,6 +716,23 @@ def nontrivial(item, model):
 def valid_case(item):
     try:
         body, ops = item["case"]
+
+        def ok_cbody(b, d):
+            if d > 3 or not isinstance(b, list):
+                return False
+            for st in b:
+                if st in ([0], [1], [2], [2, 1]):
+                    continue
+                if not isinstance(st, list) or not st:
+                    return False
+                if st[0] == 2 and len(st) == 3 and st[1] in (0, 1) and ok_cbody(st[2], d + 1):
+                    continue
+                if st[0] == 12 and len(st) == 2 and isinstance(st[1], int) and 0 <= st[1] < N_KINDS:
+                    continue
+                if st[0] == 4 and len(st) in (2, 3) and 0 <= st[1] <= 2 and (len(st) == 2 or 0 <= st[2] <= 2):
+                    continue
+                return False
+            return True
 
         def ok_body(b, d):
             if d > 4 or not isinstance(b, list):
@@ -673,7 +749,8 @@ def valid_case(item):
                 if st[0] == 27 and not (len(st) == 2 and isinstance(st[1], int) and 0 <= st[1] < N_HK):
                     return False
                 if st[0] == 2 and st not in ([2], [2, 1]):
-                    return False
+                    if not (len(st) == 3 and st[1] in (0, 1) and ok_cbody(st[2], 0)):
+                        return False
                 if st[0] == 5 and not (len(st) in (2, 3) and ok_body(st[1], d + 1) and (len(st) == 2 or st[2] in (0, 1, 2))):
                     return False
                 if st[0] == 12 and not (len(st) == 2 and isinstance(st[1], int) and 0 <= st[1] < N_KINDS):
@@ -685,9 +762,9 @@ def valid_case(item):
             return True
         if not ok_body(body, 0):
             return False
-        if has_tag(body, 23) and item.get("compare", True):
+        if (has_tag(body, 23) or has_cleanup_body(body)) and item.get("compare", True):
             return False
-        ar = {10: 2, 11: 2, 12: 2, 13: 2, 14: 2, 15: 2, 16: 2, 17: 2, 18: 3, 19: 2, 20: 2, 21: 2, 22: 3, 23: 2, 24: 2, 25: 2, 26: 2, 27: 2, 28: 4, 29: 2}
+        ar = {10: 2, 11: 2, 12: 2, 13: 2, 14: 2, 15: 2, 16: 2, 17: 2, 18: 3, 19: 2, 20: 2, 21: 2, 22: 3, 23: 2, 24: 2, 25: 2, 26: 2, 27: 2, 28: 4, 29: 2, 30: 2}
         for op in ops:
             if not isinstance(op, list) or not op or op[0] not in ar or len(op) != ar[op[0]]:
                 return False
@@ -718,7 +795,7 @@ CHILD_MODE = ["child", "current().child()", "child-via-set()"]
 OPN = {10: "rerun", 11: "cleanup", 12: "drop", 13: "notify-effect", 14: "notify-memo", 15: "read-memo", 16: "poll",
        17: "run-until-idle", 18: "alloc", 19: "dispose-value", 20: "pause", 21: "resume", 22: "use-at",
        23: "dispose-memo", 24: "dispose-effect/drop-render-handle", 25: "stop-effect", 26: "notify-immediate", 27: "drop-immediate",
-       28: "alloc-items", 29: "take-value"}
+       28: "alloc-items", 29: "take-value", 30: "cleanup-as-current-owner"}
 
 
 def show_body(b):
@@ -734,6 +811,8 @@ def show_body(b):
             out.append("handle<%s>" % HKN[st[1] % N_HK])
         elif st == [2, 1]:
             out.append("Owner::on_cleanup")
+        elif st[0] == 2 and len(st) == 3:
+            out.append("on_cleanup{%s}" % show_body(st[2]))
         elif st[0] == 12:
             out.append("arena-item<%s>" % kind_name(st[1]))
         elif len(st) > 1:
@@ -760,7 +839,7 @@ def coverage_extra(results):
         body, ops = r["item"]["case"]
         sim = Sim(body)
         for op in ops:
-            releases += op[0] in (10, 11, 12, 23, 24, 27)
+            releases += op[0] in (10, 11, 12, 23, 24, 27, 30)
             before = [e["eid"] for e in sim.effects if e["alive"] and e["set"] and not e["done"]]
             sim.step(op)
             pend += sum(1 for i in before if not sim.effects[i]["alive"])
